@@ -13,6 +13,28 @@ CHECKS = {
          "Trusted: sim/refco (coroutine hand-off), sim/layerr evalRef (structured-loop interpreter), Go runtime.",
          "DESIGN.md 4 C08"),
 }
+CHECKS.update({
+ "C09": ("exploration",
+         "deterministic simulation: seeded operation histories (MoveNext/Current/Send/Result) on the real generator vs a sequential reference model; history equality",
+         "Seeded search over operation histories biased to the protocol boundaries (before start, at and after exhaustion) on a family of generators; each history must equal the sequential model's, event by event. Sampling of an unbounded history space.",
+         "Trusted: sim/refco as the executable model of the documented protocol.", "DESIGN.md 4 C09"),
+ "C10": ("exploration",
+         "deterministic simulation: iterator steps interleaved with simulated mutator/producer steps vs Go's native range run as a coroutine; bounded-exhaustive strings plus seeded inputs",
+         "Iterator and mutator/producer are two simulated actors whose step order the simulator decides; the oracle is Go's own range statement under the same script (maps: spec-derived invariant). The string and integer parts have no second actor and are input enumeration/sampling.",
+         "Trusted: Go's range statement as specification; the map invariant checker (self-checked against native range on every case).", "DESIGN.md 4 C10"),
+ "C14": ("exploration",
+         "deterministic simulation: seeded thread scheduler pre-empting consumer threads at op boundaries and effect points; per-iterator projection vs solo run",
+         "Seeded search over interleavings of k iterators on m simulated threads with pre-emption inside steps; oracle is self-relative (projection equals solo history) plus equality with the reference under the same choices. Runtime level only so far (compiled-program level and -race supplement pending).",
+         "Trusted: sim/sched (baton passing, one runnable goroutine), sim/refco.", "DESIGN.md 4 C14"),
+ "C17": ("exploration",
+         "deterministic simulation with an invariant monitor: stack depth sampled at effect points of simulated runs, n vs 10n",
+         "Invariant monitored during simulated runs of For/While/Loop with non-yielding stretches of 10^2..10^5 iterations; self-relative oracle (depth at 10n <= depth at n + slack). No interleaving is involved (stated in DESIGN.md). Runtime level only so far.",
+         "Trusted: runtime.Callers as depth measure.", "DESIGN.md 4 C17"),
+ "C18": ("fault_enumeration",
+         "deterministic simulation with fault injection: a panic armed at every effect index of every sampled run (failpoint in vrt.E), same interleaving replayed",
+         "Fault enumeration: every generator-side effect index of every sampled (terms, ops, interleaving) gets its own run with a panic armed there; oracle is self-relative (prefix identical, panic surfaces from the executing call with the armed value, silence afterwards, other iterators unaffected) plus the reference coroutine's history. Runtime level only so far.",
+         "Trusted: vrt.E failpoint placement; sim/refco re-raising panics in the resumer.", "DESIGN.md 4 C18"),
+})
 NOT_YET = {}
 NA = {
  "C11": "pure acceptance predicate over programs x configurations: no schedule, history, fault or interleaving in it, so deterministic simulation does not apply (DESIGN.md 4 C11 / 9); its shapes run through the acceptance gate of every compiled-program check and failures are reported under the property whose workload produced the program.",
